@@ -126,13 +126,13 @@ def abi_type(t, name):
     return {"name": name, "type": t, "internalType": t}
 
 
-def abi_of(sig):
+def abi_of(sig, mutability="nonpayable"):
     name, rest = sig.split("(", 1)
-    return {"type": "function", "name": name, "inputs": parse_types(rest[:-1]), "outputs": [], "stateMutability": "nonpayable"}
+    return {"type": "function", "name": name, "inputs": parse_types(rest[:-1]), "outputs": [], "stateMutability": mutability}
 
 
 class Contract:
-    def __init__(self, name, funcs, ctor=(), natspec=None, devdoc=None, filename=None, fallback=None, payable_fallback=False):
+    def __init__(self, name, funcs, ctor=(), natspec=None, devdoc=None, filename=None, fallback=None, payable_fallback=False, views=(), payable=()):
         self.name = name
         self.funcs = dict(funcs)
         self.ctor = list(ctor)
@@ -140,6 +140,8 @@ class Contract:
         self.devdoc = dict(devdoc or {})
         self.filename = filename or f"{name}.t.sol"
         self.fallback = fallback
+        self.views = set(views)
+        self.payable = set(payable)
         self._rt = None
 
     def runtime(self) -> bytes:
@@ -164,7 +166,7 @@ class Contract:
             nodes[0]["documentation"] = {"text": self.natspec, "nodeType": "StructuredDocumentation"}
         methods = {sig: {"custom:halmos": v} for sig, v in self.devdoc.items()}
         return {
-            "abi": [abi_of(sig) for sig in self.funcs],
+            "abi": [abi_of(sig, "view" if sig in self.views else "payable" if sig in self.payable else "nonpayable") for sig in self.funcs],
             "methodIdentifiers": {sig: f"{sel(sig):08x}" for sig in self.funcs},
             "bytecode": {"object": "0x" + self.creation().hex(), "linkReferences": {}},
             "deployedBytecode": {"object": "0x" + self.runtime().hex(), "linkReferences": {}, "immutableReferences": {}},
